@@ -978,7 +978,11 @@ impl Formatter {
                 self.writer.write("f\"");
                 for part in parts {
                     match part {
-                        FStringPart::Literal(s) => self.writer.write(s),
+                        FStringPart::Literal(s) => {
+                            // Literal text is stored unescaped: restore string escapes and double the braces.
+                            let escaped = escape_string(s).replace('{', "{{").replace('}', "}}");
+                            self.writer.write(&escaped);
+                        }
                         FStringPart::Expr(expr) => {
                             self.writer.write("{");
                             self.format_expr(&expr.node);
